@@ -43,6 +43,9 @@ type Case struct {
 	// "" | "up" (scripted upstream proxy) | an upstream proxy that cannot be reached: "dead" (refuses) | "hole"
 	// (the dial times out) | "rst" (accepts and resets); "sdead" | "shole" | "srst": the same, configured as https://
 	Upstream string `json:"upstream,omitempty"`
+	// "" = the proxy's own TCP server (proxy_conn.go) | "handler" = martian's http.Handler under net/http's
+	// server (proxy_handler.go, HTTPProxyConfig.TestingHTTPHandler; no interception there)
+	Server   string `json:"server,omitempty"`
 	ReqClose bool   `json:"req_close,omitempty"`
 	ReqMinor int    `json:"req_minor"`
 
@@ -83,6 +86,9 @@ type Case struct {
 	At     string `json:"at,omitempty"`     // origin: the reply answers the request | connect: it is the upstream proxy's answer to CONNECT
 	After  string `json:"after,omitempty"`  // fin: the peer closes after its reply | keep: it goes on serving the connection
 	Dims   string `json:"dims,omitempty"`   // generator coordinates status/upgrade/content-type/framing/body (label)
+
+	// client cases of the host dimension (hosts.go): the host the request names, before any percent-encoding
+	HostHex string `json:"host_hex,omitempty"`
 }
 
 func (c *Case) head() []byte { return core.MustUnHex(orEmpty(c.HeadHex)) }
@@ -262,9 +268,15 @@ func (g *gen) cutFamily(via, upstream, framing string, bodyLen int, exhaustive b
 			sizes = append(sizes, r.Range(1, bodyLen/2+1))
 		}
 	}
-	tmpl := Case{Kind: "cut", Via: via, Upstream: upstream, Framing: framing, HeadHex: core.HexS(head), BodyHex: core.Hex(body), ChunkSizes: sizes}
+	g.cutTemplate(Case{Kind: "cut", Via: via, Upstream: upstream, Framing: framing, HeadHex: core.HexS(head), BodyHex: core.Hex(body), ChunkSizes: sizes},
+		exhaustive, samples, resets)
+}
+
+// cutTemplate adds the cuts of one scripted reply: every offset or sampled ones, ended by FIN and / or RST.
+func (g *gen) cutTemplate(tmpl Case, exhaustive bool, samples int, resets []bool) {
+	r := g.r
 	total := len(tmpl.reply())
-	for _, k := range cutsOf(r, total, len(head), exhaustive, samples) {
+	for _, k := range cutsOf(r, total, len(tmpl.head()), exhaustive, samples) {
 		for _, rst := range resets {
 			c := tmpl
 			c.K = k
@@ -333,6 +345,8 @@ func generate(r *core.Rand, quick bool) []*Case {
 		g.cutFamily("plain", "up", "chunked", 9, true, 0, both)
 		g.cutFamily("https", "up", "cl", 9, true, 0, both)
 	}
+	// A'. the same cuts with the proxy served through martian's http.Handler under net/http's server (handler.go)
+	genHandler(g, quick)
 	// sampled offsets on the other paths
 	n := 10
 	if !quick {
